@@ -384,6 +384,10 @@ func call_{{SFX}}(t testing.TB, c vCall, idx int) {
 			DirectStandaloneJSON(cfg, rec, vinput(c))
 		}
 	}
+	deep := 0
+	if strings.HasPrefix(c.Via, "deep-nontest-") {
+		fmt.Sscanf(c.Via, "deep-nontest-%d", &deep)
+	}
 	switch c.Via {
 	case "direct-nontest":
 		direct()
@@ -403,7 +407,12 @@ func call_{{SFX}}(t testing.TB, c vCall, idx int) {
 		go func() { defer wg.Done(); do() }()
 		wg.Wait()
 	default:
-		do()
+		if deep > 0 {
+			// the Match* call statement sits below <deep> frames of a non-test file
+			DeepDirect(deep, c.API, vconfig(c), rec, c.Val, vinput(c))
+		} else {
+			do()
+		}
 	}
 	vlog(map[string]any{"ev": "ret", "of": rec.of})
 }
@@ -513,6 +522,29 @@ func DirectStandalone(c *snaps.Config, t HelperT, v any) { c.MatchStandaloneSnap
 
 //go:noinline
 func DirectStandaloneJSON(c *snaps.Config, t HelperT, v any) { c.MatchStandaloneJSON(t, v) }
+
+// DeepDirect: <n> recursive frames of this non-test file between the test file and the
+// Match* call statement (table-driven assertion helpers, visitors, retry wrappers).
+//
+//go:noinline
+func DeepDirect(n int, api string, c *snaps.Config, t HelperT, val string, in any) {
+	if n > 0 {
+		DeepDirect(n-1, api, c, t, val, in)
+		return
+	}
+	switch api {
+	case "snap":
+		DirectSnapshot(c, t, val)
+	case "json":
+		DirectJSON(c, t, in)
+	case "yaml":
+		DirectYAML(c, t, in)
+	case "ssnap":
+		DirectStandalone(c, t, val)
+	default:
+		DirectStandaloneJSON(c, t, in)
+	}
+}
 `
 
 const tmplUtil = `package util
